@@ -13,7 +13,9 @@ RULE = ("cases are (prf|hash, digest, key 0..80 bytes, message 0..200 bytes, out
         "short inputs, random up to 2000 beyond), declared key/message lengths matching or not, alias spelling). Oracles: an "
         "independent RFC 5246 P_hash / counter-mode expansion / native XOF written in the harness, exact length, determinism, "
         "pairwise distinctness on sampled (key, message) sets with n >= 16, ValueError on contract breaches and unknown "
-        "names. Non-trivial = output longer than one digest, or empty key/message, or a contract-breach case, or a "
+        "names; call histories on ONE PRF object with declared lengths (every sequence of up to 4-5 calls over {valid key 0, valid key 1, "
+        "key too long, key too short, message too long} and random ones up to 12 calls): each valid call equals the reference, each invalid "
+        "call raises, also when the same invalid argument comes twice. Non-trivial = output longer than one digest, or empty key/message, or a contract-breach case, or a "
         "distinctness set; distinct = distinct case.")
 ASSUMPTIONS = ["hmac/hashlib of the standard library are trusted as the base of the independent reference",
                "hash names are the lower-case hashlib names the schemes' configurations use, plus 'SHA1'/'SHA256' spellings "
@@ -132,6 +134,30 @@ def run_case(case):
                 if out in seen and seen[out] != msg:
                     raise Violation("hash collision between distinct messages (n=%d)" % n, "hash:collision")
                 seen[out] = msg
+        elif kind == "prf_history":
+            # ONE PRF object with declared key and message lengths, called repeatedly with valid and invalid arguments in any
+            # order (also the same invalid argument twice): every valid call equals the reference, every invalid call raises
+            klen, mlen, n, digest = case["klen"], case["mlen"], case["n"], case["digest"]
+            prf = get_prf_implementation(case["alias"])(output_length=n, key_length=klen, message_length=mlen, hash_func_name=digest)
+            keys = {"g0": b"\x11" * klen, "g1": bytes(range(1, klen + 1)), "bk0": b"\x11" * (klen + 1), "bk1": b"\x11" * max(0, klen - 1)}
+            msgs = {"g0": b"\x22" * mlen, "g1": bytes(range(2, mlen + 2)), "bm0": b"\x22" * (mlen + 1)}
+            for n_op, (kn, mn) in enumerate(case["calls"]):
+                key, msg = keys[kn], msgs[mn]
+                valid = kn.startswith("g") and mn.startswith("g")
+                try:
+                    out = prf(key, msg)
+                except ValueError:
+                    if valid:
+                        raise Violation("call #%d with valid arguments raised ValueError (calls so far %r)" % (n_op, case["calls"][:n_op + 1]),
+                                        "prf_history:valid_refused")
+                    continue
+                if not valid:
+                    raise Violation("call #%d with a %d-byte key and %d-byte message was accepted by a PRF declared for %d/%d bytes "
+                                    "(calls so far %r)" % (n_op, len(key), len(msg), klen, mlen, case["calls"][:n_op + 1]),
+                                    "prf_history:invalid_accepted")
+                if out != ref_p_hash(key, msg, n, digest):
+                    raise Violation("call #%d differs from the P_hash reference (calls so far %r)" % (n_op, case["calls"][:n_op + 1]),
+                                    "prf_history:reference")
         elif kind == "prf_contract":
             what = case["what"]
             if what == "key_len":
@@ -158,7 +184,7 @@ def run_case(case):
 @st.composite
 def st_case(draw):
     kind = draw(st.sampled_from(["prf"] * 5 + ["hash"] * 5 + ["prf_default_len", "hash_default_len", "prf_distinct",
-                                                              "hash_distinct", "prf_contract"]))
+                                                              "hash_distinct", "prf_contract", "prf_history", "prf_history"]))
     c = {"kind": kind}
     n = draw(st.one_of(st.integers(1, 200), st.sampled_from([1, 15, 16, 19, 20, 21, 31, 32, 33, 40, 63, 64, 65, 128, 129, 200]),
                        st.integers(1, 2000)))
@@ -174,6 +200,11 @@ def st_case(draw):
         c.update(digest=digest, m=draw(st.one_of(st.binary(max_size=200), st.just(b""))).hex(), n=n)
         if kind == "hash_default_len" and digest.startswith("shake"):
             c["digest"] = "sha256"
+    elif kind == "prf_history":
+        c.update(alias=draw(st.sampled_from(PRF_ALIASES)), digest=draw(st.sampled_from(PRF_DIGESTS)), n=draw(st.sampled_from([1, 16, 20, 32, 33, 70])),
+                 klen=draw(st.sampled_from([1, 16, 24, 32, 64, 65])), mlen=draw(st.sampled_from([1, 4, 16, 33])),
+                 calls=draw(st.lists(st.tuples(st.sampled_from(["g0", "g1", "bk0", "bk1"]), st.sampled_from(["g0", "g1", "bm0"])).map(list),
+                                     min_size=3, max_size=12)))
     elif kind == "prf_distinct":
         c.update(n=draw(st.integers(16, 64)), digest=draw(st.sampled_from(PRF_DIGESTS)), klen=draw(st.sampled_from([1, 8, 16, 24, 32, 64])),
                  count=draw(st.integers(20, 120)), salt=draw(st.integers(0, 2 ** 32)),
@@ -215,8 +246,17 @@ def classes_of(c):
     return out
 
 
+def _history_cases(tier):
+    import itertools
+    alphabet = [["g0", "g0"], ["g1", "g1"], ["bk0", "g0"], ["bk1", "g0"], ["g0", "bm0"]]
+    for depth in range(1, 5 if tier == "quick" else 6):
+        for word in itertools.product(alphabet, repeat=depth):
+            yield {"kind": "prf_history", "alias": "HmacPRF", "digest": "sha256" if depth % 2 else "sha1", "n": 33, "klen": 16, "mlen": 4,
+                   "calls": [list(x) for x in word] + [["g0", "g0"], ["g1", "g1"]]}
+
+
 def shards(tier):
-    out = [{"kind": "lengths", "digest": d} for d in HASH_DIGESTS]
+    out = [{"kind": "lengths", "digest": d} for d in HASH_DIGESTS] + [{"kind": "histories"}]
     out += [{"kind": "hyp", "i": i} for i in range(4 if tier == "quick" else 10)]
     if tier == "thorough":
         out.append({"kind": "fuzz"})
@@ -246,6 +286,11 @@ def run_shard(spec, seed, tier):
     if spec["kind"] == "lengths":
         simple.run_enumeration(res, mod, _length_cases(spec["digest"], seed, tier))
         res.extra["lengths_bounds"] = "every output length 1..200 per digest for %d inputs incl. keys of block size -1/0/+1" % (7 if tier == "quick" else 19)
+    elif spec["kind"] == "histories":
+        simple.run_enumeration(res, mod, _history_cases(tier))
+        res.extra["history_bounds"] = ("every sequence of up to %d calls on one PRF object over {valid k0, valid k1, key too long, key too short, "
+                                       "message too long}, followed by two valid calls" % (4 if tier == "quick" else 5))
+        res.exhaustive = True
     elif spec["kind"] == "fuzz":
         simple.fuzz_stage(res, "props.c16", seed, 30000)
     else:
